@@ -27,6 +27,8 @@ def catalogue(im, r, bs):
     q.append("I %d" % ((1 << 40) | 5))
     for ref, ino in dirs:
         q.append("L %d" % ref)
+    for ref, ino in dirs[:12]:
+        q.append("O %d" % ref)                               # iterator, every sub directory opened twice
     for ref, ino in files[:40]:
         q.append("L %d" % ref)                               # not a directory
         size = ino.size
@@ -75,7 +77,7 @@ def catalogue(im, r, bs):
 
 def ask(exe, img, mode, queries, timeout=600, env=None):
     res = core.run_tool([exe, img, mode], stdin=("\n".join(queries) + "\n").encode("latin1"), timeout=timeout, binary="libsquashfs-reader", env=env)
-    lines = [l for l in res.out.decode("latin1").split("\n") if l and not l.startswith("DONE") and not l.startswith("DISAGREE") and not l.startswith("STREAM-AFTER-ERROR")]
+    lines = [l for l in res.out.decode("latin1").split("\n") if l and not l.startswith("DONE") and not l.startswith("DISAGREE") and not l.startswith("STREAM-AFTER-ERROR") and not l.startswith("ITER-REOPEN")]
     return res, lines
 
 
@@ -199,6 +201,10 @@ def run_image(arg):
                     continue
                 if ans and ans[0].startswith("OPENFAIL"):
                     oc.inc("open_failed")
+                    break
+                if b"ITER-REOPEN" in res.out:
+                    l = [x for x in res.out.decode("latin1").split("\n") if x.startswith("ITER-REOPEN")][0]
+                    oc.violate("history:open_subdir-second-call-differs", "opening the same sub directory entry twice through one iterator: %s" % l, {"image.sqfs": data[:1 << 20]})
                     break
                 if b"STREAM-AFTER-ERROR" in res.out:
                     l = [x for x in res.out.decode("latin1").split("\n") if x.startswith("STREAM-AFTER-ERROR")][0]
